@@ -137,9 +137,15 @@ def dec_many(s: str):
     return out
 
 
+STRICT_ERRORS_EARLY = os.environ.get("VERIF_STRICT_ERRORS") == "1"
+
+
 def norm(v):
-    """tuples and lists are identified; bytearray -> bytes"""
+    """tuples and lists are identified; bytearray -> bytes; an error outcome EMBEDDED in a composite value - the harness
+    convention ("err", Kind) / ["err", Kind] - loses its kind (which exception refuses is not part of any property)"""
     if isinstance(v, (list, tuple)):
+        if len(v) == 2 and v[0] == "err" and (v[1] is None or isinstance(v[1], str)) and not STRICT_ERRORS_EARLY:
+            return ["err"]
         return [norm(x) for x in v]
     if isinstance(v, (bytearray, memoryview)):
         return bytes(v)
